@@ -943,7 +943,12 @@ func (d *dealer) syncCall(caller *wamp.Session, msg *wamp.Call) {
 	//
 	// The error message that is returned to the Caller MUST use
 	// wamp.error.timeout as the reason URI.
-	if timeout > 0 {
+	//
+	// A call has one timeout timer, started for the first CALL message that
+	// asks for it. A later CALL message of a progressive call invocation does
+	// not start another one: the timer already running could then no longer be
+	// stopped when the call ends.
+	if timeout > 0 && invk.timerCancel == nil {
 		// Timer removed if context canceled, call cancelled if timeout.
 		var timerCtx context.Context
 		timerCtx, invk.timerCancel = context.WithTimeout(context.Background(),
